@@ -15,12 +15,13 @@ CONSTANTS
   RegOrder <- vRegOrder
   PIdx <- vPIdx
   PMask <- vPMask
+  BadOnes = %(badones)s
   Failable = %(failable)s
   Vetoers = %(vetoers)s
   Updater = "%(updater)s"
   NReq = %(nreq)d
   UseBlocks = %(blocks)s
-INVARIANTS Sorted OncePerRequest CommonOrder ActiveNoDup ExactlyOnce HeldBlocksSync ActiveWasSynced Delivered VisitedOK CallbackExclusive
+INVARIANTS Sorted OncePerRequest CommonOrder ActiveNoDup ExactlyOnce HeldBlocksSync ActiveWasSynced Delivered VisitedOK CallbackExclusive OnlyWellFormed
 %(props)s
 CHECK_DEADLOCK FALSE
 '''
@@ -28,7 +29,7 @@ CHECK_DEADLOCK FALSE
 BASE = dict(regorder='<<"pa", "pb", "pc">>', pidx='[pa |-> 10, pb |-> 10, pc |-> 5]',
             pmask='[pa |-> {"CreateContainer", "StartContainer"}, pb |-> {"CreateContainer"}, '
                   'pc |-> {"StartContainer", "CreateContainer"}]',
-            callers='{"c1", "c2"}', failable='{"pb"}', vetoers='{"pa"}', updater="pc", nreq=1, blocks="TRUE",
+            callers='{"c1", "c2"}', badones='{}', failable='{"pb"}', vetoers='{"pa"}', updater="pc", nreq=1, blocks="TRUE",
             props="PROPERTIES AllDone RegsEnd")
 
 
@@ -64,8 +65,13 @@ class Relay(recorded.Module):
                            updater="pa"))
         else:
             cfgs.append(mc("MCR_2c3p1r", workers=8))
-        if prop == "C07":
-            cfgs = [c for c in cfgs]   # same interleaving model: failures (PluginClosed at any moment) and vetoes
+        if prop in ("C17", "REL"):
+            # two malformed registrations ahead of and between good ones
+            cfgs.append(mc("MCR_badregs", workers=8, regorder='<<"bad1", "pa", "bad2", "pb">>',
+                           pidx='[pa |-> 10, pb |-> 5, bad1 |-> 1, bad2 |-> 2]',
+                           pmask='[pa |-> {"CreateContainer", "StartContainer"}, pb |-> {"CreateContainer"}, '
+                                 'bad1 |-> {"CreateContainer"}, bad2 |-> {"CreateContainer"}]',
+                           badones='{"bad1", "bad2"}', updater="pa", failable='{}'))
         if prop in ("C08", "REL"):
             # vacuity guard: a runtime that forgets the sync blocks must break ExactlyOnce in the model
             cfgs.append(mc("MCR_noblocks", workers=4, expect="ExactlyOnce", blocks="FALSE", props=""))
@@ -73,9 +79,22 @@ class Relay(recorded.Module):
 
     def prepare(self, prop, tier, sd, sc):
         self.fault_file = None
-        if prop not in ("C07", "REL"):
-            return 0, 0
+        self.reg_file = None
         th = tier == "thorough"
+        st = tr = 0
+        if prop in ("C17", "REL"):
+            cfg = "SPECIFICATION GSpec\nCONSTANTS\n  MaxBad = %d\nCHECK_DEADLOCK FALSE\n" % (3 if th else 2)
+            rc, out = vlib.run_tlc(sc.sub("gen-reg"), "Gen_Reg", cfg, workers=2, timeout=600)
+            if "No error has been found" not in out:
+                raise vlib.ToolFailure("Gen_Reg failed:\n" + vlib.tlc_error_excerpt(out))
+            cases = sorted(set(vlib.tlc_tagged(out, "CASE")))
+            self.reg_file = sc.path("regs.ndjson")
+            with open(self.reg_file, "w") as f:
+                f.write("\n".join(cases) + "\n")
+            g, d = vlib.tlc_counts(out)
+            st, tr = st + d, tr + g
+        if prop not in ("C07", "REL"):
+            return st, tr
         offs = "0..200" if th else "{0, 3, 8, 12, 18, 25, 40, 80}"
         cfg = "SPECIFICATION GSpec\nCONSTANTS\n  Offsets = %s\n  Slow = %s\nCHECK_DEADLOCK FALSE\n" % (
             offs, "TRUE" if th else "FALSE")
@@ -88,11 +107,13 @@ class Relay(recorded.Module):
             f.write("\n".join(cases) + "\n")
         self.fault_count = len(cases)
         gen, dist = vlib.tlc_counts(out)
-        return dist, gen
+        return st + dist, tr + gen
 
     def recordings(self, prop, tier, sd):
         th = tier == "thorough"
         recs = []
+        if prop in ("C17", "REL"):
+            recs.append(("regs", ["regs", "-in", self.reg_file, "-seed", sd]))
         if prop in ("C07", "REL"):
             recs.append(("faults", ["faults", "-in", self.fault_file, "-seed", sd]))
             recs.append(("drops", ["relay", "-seed", sd + 7, "-runs", 150 if th else 40, "-plugins", 5, "-callers", 3,
